@@ -21,6 +21,7 @@ func init() {
 			E3ArcShortcut(c, r)
 			E3BoundingBoxes(c, r)
 			E3BoundsExtrema(c, r)
+			E3BoundsGuardAgreement(c, r)
 			E3ArcExtent(c, r)
 		},
 	})
@@ -45,6 +46,7 @@ func init() {
 			E9AbsorbedLink(c, r)
 			E9AbsorbConserves(c, r)
 			E9DepthFromResultEdge(c, r)
+			E9StitchSelectsUnconsumed(c, r)
 			E9DepthDerivedAfterRead(c, r)
 			E9SquareRange(c, r)
 			E9HoleParity(c, r)
@@ -69,6 +71,7 @@ func init() {
 			E9AbsorbedLink(c, r)
 			E9AbsorbConserves(c, r)
 			E9DepthFromResultEdge(c, r)
+			E9StitchSelectsUnconsumed(c, r)
 			E9DepthDerivedAfterRead(c, r)
 			E9SquareRange(c, r)
 			E9HoleParity(c, r)
@@ -98,6 +101,7 @@ func init() {
 			E9PendingPerSubpath(c, r)
 			E9InflectionAcrossLine(c, r)
 			E9CurveParameterDomain(c, r)
+			E9NudgeSideFromTangent(c, r)
 			E11PieceFlagNotWholeArcs(c, r)
 			E11RemapIffSplit(c, r)
 			E9CubicDirection(c, r)
@@ -189,6 +193,7 @@ func init() {
 			E4DeactivationWithoutPenaltyWidth(c, r)
 			E11BreakWidth(c, r)
 			E4FlaggedPairRealBreak(c, r)
+			E4FitnessChargeOnClassesOnly(c, r)
 			E4ListLinks(c, r)
 			E4RunningTotalsFixed(c, r)
 			E4NextToleranceRecorded(c, r)
@@ -214,6 +219,7 @@ func init() {
 		Run: func(c *core.Ctx, r *core.Report) {
 			E5GradientOffsetsUsed(c, r)
 			E5DictCompleteBeforeWrite(c, r)
+			E5ImageSampleDepth(c, r)
 			E5CMapBlockLimit(c, r)
 			E5NameMemoScope(c, r)
 			E5StitchingArity(c, r)
@@ -248,6 +254,8 @@ func init() {
 		Explanation: "Decides structural agreement among the four back-ends for every drawing: each RenderPath reads every Style field (a back-end that never reads a field cannot honour it); every explicit Dash call receives canvas.ScaleDash(style.StrokeWidth, …) like the reference rasterizer; every path serialised by ToSVG/ToPDF/ToPS/ToScanxScanner derives on every path from Transform(M) with M built from the view parameter (SVG: with the y-flip), incl. the explicit-outline fall-backs; cap/join codes per concrete Capper/Joiner type agree with the formats' tables and the even-odd marker is emitted only under FillRule == EvenOdd; the emitted PDF and PostScript fragments form only operators of the respective vocabulary with balanced save/restore (abstract interpretation with path-sensitive repeated conditions), and procedure names emitted by Path.ToPS are defined in the PS prolog. NOT decided: that an interpreter of the output paints the same pixels, gradients/patterns, text, opacity, unit factors, Positive/Negative fill rules (no back-end format has them).",
 		Assumptions: []string{"the rasterizer is the reference for dash scaling", "PS.RenderImage (binary image data) is outside the grammar rule"},
 		Run: func(c *core.Ctx, r *core.Report) {
+			E5ImageSampleDepth(c, r)
+			E11ClusterOffsetBytes(c, r) // the text every back-end writes is cut out of the whole text at cluster offsets
 			E5GradientOffsetsUsed(c, r)
 			E11ImageExtentFromSize(c, r)
 			E11AboutIsConjugation(c, r) // the Matrix helpers every view and transformation is composed with
@@ -290,6 +298,7 @@ func init() {
 		Explanation: "Decides, for every path and argument: (1) every exported method of *Path/Paths other than the documented in-place mutators/sinks (each re-justified by its doc phrase) writes no memory reachable from its receiver or arguments — interprocedural effect analysis on SSA; the copy-on-write latch of replace is verified structurally; (2) the command encoding discipline: cmdLen vs the format, payload offsets inside the decoded record, every record built/retagged with the command at both ends; Split hands out capacity-limited sub-slices; (3) no in-place transform accumulates over loop iterations, no loop state variable is stuck at its initial constant. (4) since batch 12: every explicit panic reachable from Settle/And/Or/Xor/Not/DivideBy is a reviewed precondition or data-structure guard, or a known finding with a failing input; the sweep's work-list loop is reported for having no explicit bound (known finding: an operand pair on which Or does not return). NOT decided: 'no zero-length segments', the geometry the builders trace, implicit run-time panics other than those named, termination of anything but that loop.",
 		Assumptions: []string{"standard-library functions not in the mutator table are pure (listed in coverage.external_assumed)", "results of calls through function-typed parameters are fresh objects", "one reviewed call edge: Dash -> Join (reason in the checker's exception table)"},
 		Run: func(c *core.Ctx, r *core.Report) {
+			E11PointCompareTolerant(c, r)
 			E11RecordedPathCopied(c, r)
 			E9SquareRangeBothEnds(c, r)
 			E11QuadLineTestMirror(c, r)
@@ -413,6 +422,7 @@ func init() {
 		Title:       "Stroke and Offset realise exact distance offsets of the path",
 		Explanation: "Decides one clause only, 'closed subpaths are joined, not capped' (and its dual: open sub-paths are capped iff stroking): in (*Path).offset the closed flag is set exactly by a Close command, every Capper call is control-dependent on !closed && strokeOpen and placed at the two ends, the Joiner wraps around from the last to the first segment when closed, the closed branch closes both offset curves, and Stroke/Offset pass strokeOpen true/false; plus the angle-unit consistency of the arc rotation passed to ArcTo (E8, whole package). NOT decided: every distance clause (w/2 neighbourhood, miter limit, inner-bend repair, offset direction). Also runs the structural rules on Settle (registered for C02): closed sub-paths are stroked by settling their offset curves.",
 		Run: func(c *core.Ctx, r *core.Report) {
+			E11JoinerSidesConsistent(c, r)
 			E11OffsetVerticesUseOffset(c, r)
 			E2BackwardStepKnownKind(c, r)
 			E11SignFlipPerIteration(c, r)
@@ -437,6 +447,7 @@ func init() {
 			E9AbsorbedLink(c, r)
 			E9AbsorbConserves(c, r)
 			E9DepthFromResultEdge(c, r)
+			E9StitchSelectsUnconsumed(c, r)
 			E9DepthDerivedAfterRead(c, r)
 			E9SquareRange(c, r)
 			E9HoleParity(c, r)
@@ -555,6 +566,7 @@ func init() {
 		Title:       "Text layout places every character once, inside the box, on ordered lines",
 		Explanation: "Decides two structural clauses. (1) the structural part of 'lines are stacked monotonically by their line heights … Text.Bounds/Heights enclose all spans': a line's top/ascent/descent/bottom are pure component-wise math.Max folds over its spans (each accumulator folded with the same-named component of FontFace.heights(), inline objects' ascent/descent feeding the right pair), and Text.Heights combines the first line's ascent with the last line's descent. (2) a necessary condition of 'right-aligned lines end at the width, centred lines are centred, no line extends beyond the box unless Overflows is reported': the width the line breaker records for a feasible break includes the width of the penalty (the hyphen shown at the break), by the same guarded addition the fitting computation uses. NOT decided: everything else — that every character appears exactly once and in order, glyph/byte index bookkeeping, glue stretching, alignment, bidi reordering, Overflows, which are arithmetic over runtime arrays with no structural clause. Also runs the structural rules on Linebreak (registered for C17): the lines of a text box are those Linebreak chooses.",
 		Run: func(c *core.Ctx, r *core.Report) {
+			E11ClusterOffsetBytes(c, r)
 			E4GlueAfterBox(c, r)
 			E4DeactivationWithoutPenaltyWidth(c, r)
 			E4ListLinks(c, r)
